@@ -46,6 +46,8 @@ def encodings(rng):
         "bool vs int": lambda c, t: (lambda a, b: (bool(a), int(b)))(*pick([0, 1], c)),
         # one-element categorical Series (a row of a categorical column); the two Series need not share their category lists
         "categorical series": lambda c, t: (lambda a, b: (pd.Series([a], dtype="category"), pd.Series(pd.Categorical([b], categories=["z", "y", "x", "w"]))))(*pick(["w", "x", "y", "z"], c)),
+        # one-row slices of a label column (`labels.iloc[[t]]`): the row label is whatever position the slice came from
+        "series slices with their own row labels": lambda c, t: (lambda a, b: (pd.Series([a], index=[t + 1]), pd.Series([b], index=[(7 * t) % 5])))(*pick([3, 5, 8], c)),
         "series / index objects": lambda c, t: (lambda a, b: (pd.Series([a]), pd.Index([b])))(*pick([3, 5, 8], c)),
         # distinct labels that a numeric coercion would identify (or, for "nan", separate from itself)
         "zero-padded codes": lambda c, t: pick(["1", "01", "001", "1.0", "1e0"], c),
